@@ -16,13 +16,13 @@ import numpy as np
 import core
 from core import Fraction, frac, rat
 
-MODELLED = ["evo/core/geometry.py:umeyama_alignment"]
+MODELLED = ["evo/core/geometry.py:umeyama_alignment", "evo/core/trajectory.py:PosePath3D.align"]
 EPS_CERT = Fraction(1, 2 ** 30)
 EPS_C = 2.0 ** -40
 LD = np.longdouble
 
 RULE = ("cases = (x, y, with_scale) with x,y 3xn float arrays; streams: generic / noisy (0-100% of extent) / mirrored "
-        "(optimal orthogonal map is a reflection) / structured sizes n in {1..4, 2^k-1, 2^k, 2^k+1 (k<=11), 1000, 2000} / planar (rank 2) / large offsets (1e6) / scales 1e-3..1e6 / exact "
+        "(optimal orthogonal map is a reflection) / route: direct call or through PosePath3D.align on all poses / structured sizes n in {1..4, 2^k-1, 2^k, 2^k+1 (k<=11), 1000, 2000} / planar (rank 2) / large offsets (1e6) / scales 1e-3..1e6 / exact "
         "integer grid / degenerate (unequal sizes, coincident, one coordinate axis, collinear off-axis, n<=2); evo's "
         "(R,t,c) as exact rationals must pass umeCert eps=2^-30 in the driver, refusal decisions compared exactly on "
         "degenerate classes and well-conditioned inputs; non-trivial = result returned on noisy/mirrored/planar data "
@@ -288,7 +288,17 @@ class _NpProxy:
         return getattr(np, k)
 
 
-def call_evo(x, y, ws, probe=False):
+def _via_align(x, y, ws):
+    """the same point sets handed to Umeyama through evo's trajectory API (`PosePath3D.align`, all poses): the triple it
+    returns is the one umeyama_alignment computed; unequal sizes must be refused on this route too (never truncated)."""
+    from evo.core.trajectory import PosePath3D
+    ident = lambda n: np.tile(np.array([1.0, 0.0, 0.0, 0.0]), (n, 1))
+    est = PosePath3D(positions_xyz=np.array(x, dtype=float).T.copy(), orientations_quat_wxyz=ident(x.shape[1]))
+    ref = PosePath3D(positions_xyz=np.array(y, dtype=float).T.copy(), orientations_quat_wxyz=ident(y.shape[1]))
+    return est.align(ref, correct_scale=bool(ws))
+
+
+def call_evo(x, y, ws, probe=False, route="direct"):
     from evo.core import geometry
     log = []
     if probe:
@@ -296,7 +306,7 @@ def call_evo(x, y, ws, probe=False):
         geometry.np = _NpProxy(log)
     try:
         try:
-            r, t, c = geometry.umeyama_alignment(x, y, ws)
+            r, t, c = _via_align(x, y, ws) if route == "align" else geometry.umeyama_alignment(x, y, ws)
             out = {"R": np.array(r, dtype=float).reshape(3, 3).tolist(), "t": np.array(t, dtype=float).reshape(3).tolist(),
                    "c": float(c), "c_is_float": isinstance(c, float) or isinstance(c, np.floating)}
             if not (np.isfinite(np.array(out["R"])).all() and np.isfinite(np.array(out["t"])).all() and math.isfinite(out["c"])):
@@ -370,7 +380,7 @@ def run_impl(case):
     elif case.get("ws_as") == "np.bool_":
         ws = np.bool_(ws)
     with np.errstate(all="ignore"):
-        out = call_evo(x, y, ws, probe=True)
+        out = call_evo(x, y, ws, probe=True, route=case.get("route", "direct"))
     out["inputs_unchanged"] = x.tobytes() == bx and y.tobytes() == by
     after = sentinel()
     diff = [ws_ for ws_ in (False, True) if after[ws_] != _SENT_BASE[ws_]]
@@ -762,6 +772,12 @@ def check(ctx):
     lean = core.lean_side(ctx.prop, ctx.tier)
     core.drift(ctx, MODELLED)
     cases = list(gen_cases(ctx))
+    # route stream: every unequal-size case and every fifth other plain case again through PosePath3D.align (all poses)
+    via = [dict(c, route="align") for k, c in enumerate(cases)
+           if c.get("flavour", "T-view") == "T-view" and "ws_as" not in c and c["x"] and c["y"]
+           and (c.get("deg") == "shape" or k % 5 == 0)]
+    ctx.notes["route_align_cases"] = len(via)
+    cases += via
     evaluate(ctx, cases)
     for b in ("reflection-fix-taken", "reflection-fix-not-taken", "rank-2-data", "with-scale", "without-scale",
               "refuse-shape", "refuse-coincident", "refuse-axis"):
